@@ -629,6 +629,8 @@ func appTypeOf(a *App) string {
 		return "deployment"
 	case "bare":
 		return "NULL"
+	case "tapp":
+		return strings.ToLower(a.crKind())
 	case "foo":
 		switch a.typePrefix() {
 		case "sts_":
